@@ -72,6 +72,17 @@ type Gen struct {
 	readLog    map[string]bool
 	specReadCache map[*Pred][]string
 	inSpecReads   map[*Pred]bool
+	degraded      []string // reasons why the contract no longer fits the function's structure
+}
+
+func (g *Gen) degrade(format string, a ...interface{}) {
+	s := fmt.Sprintf(format, a...)
+	for _, x := range g.degraded {
+		if x == s {
+			return
+		}
+	}
+	g.degraded = append(g.degraded, s)
 }
 
 type arrInfo struct {
